@@ -39,6 +39,33 @@ def stStr : Option Nat → String
   | some n => toString n
   | none => "unfinished"
 
+/-! `fine totp <kind,kind,…> <schedule>`: requests A, B, C … present the same valid TOTP code; the n-th
+occurrence of a letter in the schedule is that request's n-th step (load, gate+evaluate, save), all at one
+instant, on a fresh user.  ↦ `<ok|refused> … stored=<new|old>`. -/
+def fineEvents (sched : List Char) : List TEv :=
+  (sched.foldl (fun (acc : List TEv × (Nat → Nat)) ch =>
+    let r := ch.toNat - 'A'.toNat
+    let k := acc.2 r
+    let ev : List TEv := if k == 0 then [.load r] else if k == 1 then [.gate r 0] else if k == 2 then [.save r] else []
+    (acc.1 ++ ev, fun q => if q = r then k + 1 else acc.2 q)) ([], fun _ => 0)).1
+
+def fineKindOK (k : String) : Bool := k == "auth" || k == "verify"
+
+def fineModel (kinds sched : String) : String :=
+  let ks := kinds.splitOn ","
+  let n := ks.length
+  if !(ks.all fineKindOK) || n > 3 || !(sched.toList.all (fun ch => 'A'.toNat ≤ ch.toNat && ch.toNat < 'A'.toNat + n)) then "bad-op"
+  else
+    -- whatever the schedule leaves unfinished runs to completion afterwards, in name order (as the harness does);
+    -- steps a request has already taken are no-ops the second time (a loaded request re-loading is harmless
+    -- only before its gate, so completion events are generated per request from its own progress)
+    let cnt : Nat → Nat := fun r => (sched.toList.filter (fun ch => ch.toNat - 'A'.toNat == r)).length
+    let rest : List TEv := (List.range n).flatMap (fun r =>
+      if cnt r == 0 then [] else [TEv.load r, .gate r 0, .save r].drop (cnt r))
+    let s := tRun true 1 (TSt.init 0 none) (fineEvents sched.toList ++ rest)
+    let outs := (List.range n).map (fun r => if s.honoured.contains r then "ok" else "refused")
+    " ".intercalate outs ++ (if s.stored == 1 then " stored=new" else " stored=old")
+
 def model : List String → String
   | ["pair", fx, ka, kb, sched] =>
     match parseKind ka, parseKind kb with
@@ -58,9 +85,21 @@ def model : List String → String
       let (s', ta, tb, tc) := KM.Conc.run3 s (mk 0 a) (mk 0 b) (mk 0 c) sch
       s!"{stStr ta.status} {stStr tb.status} {stStr tc.status} {digest (s' 0)}"
     | _, _, _ => "bad-op"
+  | ["fine", "totp", kinds, sched] => fineModel kinds sched
+  | _ => "bad-op"
+
+/-- `once <ok|refused|…> …`: the property's predicate on what the implementation answered to several
+presentations of one one-time value — honoured at most once (a refusal is anything that is not `ok`). -/
+def judge : List String → String
+  | "once" :: outs =>
+    let k := (outs.filter (· == "ok")).length
+    if outs.isEmpty then "bad-op"
+    else if k ≤ 1 then "ok" else s!"viol honoured={k}"
   | _ => "bad-op"
 
 def handler (mode : String) : Option Handler :=
-  if mode == "model" then some (.pure model) else none
+  if mode == "model" then some (.pure model)
+  else if mode == "judge" then some (.pure judge)
+  else none
 
 end KM.Driver.C16
